@@ -233,7 +233,11 @@ func typedExact(r *CRecord, pkg string) []problem {
 				continue
 			}
 		}
-		out = append(out, problem{"values are exchanged exactly (typed corpus exchange)", fmt.Sprintf("call t%d.o%d %s (value seed %d, edge=%v, fault %+v fired=%v): %s", r.Task, r.Op, r.Call.TOp, r.Call.V, r.Call.Edge, r.Call.Fault, r.FaultFired, p), keyOf("typed/" + cls + "/" + pkg + "/" + r.Call.TOp)})
+		key := keyOf("typed/" + cls + "/" + pkg + "/" + r.Call.TOp)
+		if strings.Contains(cls, "number arrived one unit in the last place away") {
+			key = keyOf("typed/json number reader/" + cls[strings.Index(cls, "/")+1:]) // one cause (a dependency), whatever the operation
+		}
+		out = append(out, problem{"values are exchanged exactly (typed corpus exchange)", fmt.Sprintf("call t%d.o%d %s (value seed %d, edge=%v, fault %+v fired=%v): %s", r.Task, r.Op, r.Call.TOp, r.Call.V, r.Call.Edge, r.Call.Fault, r.FaultFired, p), key})
 	}
 	if strings.HasPrefix(r.ClientErr, "client panic") {
 		out = append(out, problem{"the generated client does not panic", fmt.Sprintf("call t%d.o%d %s (value seed %d, edge=%v): %s", r.Task, r.Op, r.Call.TOp, r.Call.V, r.Call.Edge, r.ClientErr), keyOf("typed/client panic/" + pkg + "/" + r.Call.TOp)})
